@@ -372,6 +372,17 @@ class CollisionMonitor:
                     ck.count(f'col.reply.{kind}.{b_state}.{"/".join(map(str, nts)) or "ok"}')
                     if kind == 'rekey_ike' and b_state in ESTAB_FAMILY and b_state != 'ESTABLISHED' and 'TEMPORARY_FAILURE' not in nts:
                         ck.violation(f'collision-answer:rekey_ike-in-{b_state}-not-TEMPORARY_FAILURE', {'reply': rd.get('notifies'), 'trace': sim.trace[-12:]}, case)
+                    # the converse (RFC 7296 2.25.1): while we are deleting or rekeying ONE CHILD_SA, the peer's rekey of ANOTHER CHILD_SA collides with nothing and
+                    # is not pushed back. What we are working on is read from the request we have outstanding (a field of the IKE_SA object, set when it was sent)
+                    if kind == 'rekey_child' and b_state in ('DEL_CHILD_REQ_SENT', 'REK_CHILD_REQ_SENT') and desc is not None:
+                        own = getattr(sa, 'deleting_child_sa' if b_state.startswith('DEL') else 'rekeying_child_sa', None)
+                        named = [bytes(p_.get('spi') or b'') for p_ in desc.get('inner', []) if p_.get('type') == 41 and p_.get('ntype') == 16393]
+                        if own is not None and named and len(named[0]) == 4:
+                            same = named[0] == bytes(own.outbound_spi)
+                            ck.count(f'col.rekey_child_while_busy_with_{"that" if same else "another"}_child.{"pushed_back" if "TEMPORARY_FAILURE" in nts else "served"}')
+                            if not same and 'TEMPORARY_FAILURE' in nts:
+                                ck.violation(f'collision-answer:rekey-of-another-child-sa-in-{b_state}-pushed-back-with-TEMPORARY_FAILURE',
+                                             {'own_outstanding_on': bytes(own.outbound_spi).hex(), 'request_names': named[0].hex(), 'trace': sim.trace[-12:]}, case)
                     if kind in ('rekey_child', 'new_child') and b_state in ('REK_IKE_SA_REQ_SENT', 'DEL_IKE_SA_REQ_SENT') and 'TEMPORARY_FAILURE' not in nts:
                         ck.violation(f'collision-answer:{kind}-in-{b_state}-not-TEMPORARY_FAILURE', {'reply': rd.get('notifies'), 'trace': sim.trace[-12:]}, case)
 
